@@ -61,7 +61,7 @@ impl Prop for C14 {
     }
 
     fn strategy(_profile: &str) -> BoxedStrategy<SimCase> {
-        (trace(120), delay(), any::<bool>(), any::<bool>(), any::<u64>())
+        (trace(120), delay(), any::<bool>(), any::<bool>(), seed())
             .prop_map(|(trace, delay_ns, hand_queue, long, seed)| {
                 let n = trace.len();
                 SimCase {
@@ -106,6 +106,11 @@ impl Prop for C14 {
         }
         if c.hand_queue {
             obs.hit("hand_built_queue");
+        }
+        // both directions busy for more than a second
+        let span = c.trace.last().map(|x| x.0).unwrap_or(0);
+        if span > 1_000_000_000 && sent >= 8 && recv >= 8 {
+            obs.hit("sustained_two_way_traffic_over_a_second");
         }
         if sent >= 1 && recv >= 1 && c.trace.len() >= 2 && (burst || dense || c.delay_ns == 0) {
             obs.nontrivial();
@@ -189,7 +194,7 @@ impl Prop for C14 {
     }
 
     fn required_classes() -> Vec<&'static str> {
-        vec!["burst_of_equal_timestamps", "eleven_packets_within_100ms", "zero_delay", "hand_built_queue"]
+        vec!["burst_of_equal_timestamps", "eleven_packets_within_100ms", "zero_delay", "hand_built_queue", "sustained_two_way_traffic_over_a_second"]
     }
 
     fn assumptions() -> Vec<&'static str> {
